@@ -140,6 +140,9 @@ def run(ctx):
         ev = ctx.evaluator(0)
         r.eq('has_data_to_write', S.show(ev.run_fn('io_loop::Inner::has_data_to_write')), '!serialize::SealableOutputBuffer::is_empty(self.outbuf)', ctx.site('io_loop::Inner::has_data_to_write'))
 
+    with ctx.rule('R08.7', "Connection::close reports the I/O thread's result (the server's close) before its own", floor=4) as r:
+        A.include(ctx, r, 'c05', 'R05.5')
+
     with ctx.rule('R08.6', "EOF behind the server's CloseOk is the normal end of a client-initiated close", floor=2) as r:
         fnp = 'io_loop::IoLoop::handle_steady_event'
         fn = ctx.fn(fnp)
